@@ -424,10 +424,8 @@ fn main() {
             cases.push(Case {
                 label: format!("c*{counts:?}{}", if with_e { "+e" } else { "" }),
                 config: Config { partial: false, clauses },
-                histories: HistGen::All {
-                    alphabet: vec![Call::new(M::C, 0), Call::new(M::E, 0)],
-                    depth: if quick { 4 } else { 5 },
-                },
+                // every history of every length up to the bound (the ones that stop early matter)
+                histories: HistGen::List((0..=if quick { 4 } else { 5 }).flat_map(|len| sequences(&[Call::new(M::C, 0), Call::new(M::E, 0)], len)).collect()),
             });
         }
     }
@@ -447,10 +445,7 @@ fn main() {
         cases.push(Case {
             label: "twelve-exact-patterns".into(),
             config: Config { partial: false, clauses },
-            histories: HistGen::All {
-                alphabet: vec![Call::new(M::A, 0), Call::new(M::B, 1)],
-                depth: 2,
-            },
+            histories: HistGen::List((0..=2).flat_map(|len| sequences(&[Call::new(M::A, 0), Call::new(M::B, 1)], len)).collect()),
         });
     }
     for (n1, segs1) in ord_forms {
